@@ -3,7 +3,7 @@ SPECIFICATION Spec
 CONSTANTS
   Sorts <- SortsThorough
   Sizes = {0, 1, 2, 3}
-  Skips = {0, 1, 2, 3}
+  Skips = {0, 1, 2}
   Totals = {}
   AfterSizes = {2}
   ReqModes = {"page", "after", "before"}
